@@ -103,6 +103,26 @@ pub fn c04(tier: &str, seed: u64) -> Vec<Case> {
             all.push((p, "ext-rcode-no-opt".to_string()));
         }
     }
+    // values the public fields admit and no parser produces: NSEC type bit maps with windows out of order and repeated, OPT
+    // option lists with a code twice, followed by another record - whatever the writer makes of them, RDLENGTH is the
+    // number of octets it wrote and the next entry starts where the record ends
+    {
+        use rdata::{RData, NSEC, TypeBitMap, A, OPT, OPTCode};
+        for k in 0..(if thorough { 64u16 } else { 16 }) {
+            let wins: Vec<(u8, Vec<u8>)> = match k % 4 {
+                0 => vec![(0, vec![0x40]), (0, vec![0x20, 0x01])],
+                1 => vec![(2, vec![0x01]), (1, vec![0, 0x80]), (0, vec![0x40])],
+                2 => vec![(1, vec![0x10]), (1, vec![0x10]), (1, vec![0x08, 0, 1])],
+                _ => vec![(5 + (k / 4) as u8, vec![0x01]), (0, vec![0x40, 0x01]), (5 + (k / 4) as u8, vec![0x80; 1 + (k as usize / 4) % 30])],
+            };
+            let mut p = Packet::new_reply(k);
+            let owner = crate::gen::mk_name(&[b"n".to_vec(), b"example".to_vec()]);
+            p.answers.push(ResourceRecord::new(owner.clone(), CLASS::IN, 1, RData::NSEC(NSEC { next_name: crate::gen::mk_name(&[b"o".to_vec(), b"example".to_vec()]), type_bit_maps: wins.iter().map(|(w, b)| TypeBitMap { window_block: *w, bitmap: b.clone().into() }).collect() })));
+            p.answers.push(ResourceRecord::new(owner.clone(), CLASS::IN, 1, RData::A(A { address: k as u32 })));
+            if k % 2 == 0 { *p.opt_mut() = Some(OPT { opt_codes: vec![OPTCode { code: 10, data: vec![1u8, 2].into() }, OPTCode { code: 10, data: vec![3u8].into() }, OPTCode { code: 3, data: vec![].into() }], udp_packet_size: 1232, version: 0 }); }
+            all.push((p, "unnormalised-values".to_string()));
+        }
+    }
     // packets that came out of the parser (reference-encoded messages with empty character-strings, OPT records at
     // any index, unknown types, empty RDATA): what a forwarder serialises; framed like any other packet
     {
